@@ -10,6 +10,7 @@ pub mod c05;
 pub mod c06;
 pub mod c07;
 pub mod c09;
+pub mod c10;
 pub mod c11;
 pub mod c12;
 pub mod c13;
@@ -28,6 +29,7 @@ pub fn make(id: &str, run: &mut crate::run::Run) -> Option<Box<dyn Prop>> {
 		"C06" => Some(Box::new(c06::C06::new(run))),
 		"C07" => Some(Box::new(c07::C07::new(run))),
 		"C09" => Some(Box::new(c09::C09::new(run))),
+		"C10" => Some(Box::new(c10::C10::new(run))),
 		"C11" => Some(Box::new(c11::C11::new(run))),
 		"C12" => Some(Box::new(c12::C12::new(run))),
 		"C13" => Some(Box::new(c13::C13::new(run))),
@@ -48,7 +50,7 @@ pub fn make_for_replay(id: &str, run: &mut crate::run::Run) -> Option<Box<dyn Pr
 	make(id, run)
 }
 
-pub const ALL: &[&str] = &["C01", "C02", "C03", "C04", "C05", "C06", "C07", "C09", "C11", "C12", "C13", "C14", "C15", "C16", "C17", "C18", "C19"];
+pub const ALL: &[&str] = &["C01", "C02", "C03", "C04", "C05", "C06", "C07", "C09", "C10", "C11", "C12", "C13", "C14", "C15", "C16", "C17", "C18", "C19"];
 
 /// (runs, max steps per run) per tier
 pub fn budget(id: &str, thorough: bool) -> (u64, usize) {
@@ -57,6 +59,8 @@ pub fn budget(id: &str, thorough: bool) -> (u64, usize) {
 		("C06", true) => (600, 90),
 		("C09", false) => (160, 160),
 		("C09", true) => (3000, 400),
+		("C10", false) => (160, 40),
+		("C10", true) => (3000, 120),
 		("C13", false) => (160, 90),
 		("C13", true) => (3000, 140),
 		(_, false) => (160, 45),
@@ -90,6 +94,7 @@ pub fn rule(id: &str) -> String {
 		"C13" => "after a seeded history the real OwnerAPIHandlerV3 of a wallet is driven in-process by sessions of 40-120 requests from a legitimate client (ECDH key exchange, AES-GCM envelopes) and an attacker on the wire: plaintext calls of 13 methods, envelopes under superseded / random keys, replays from before a re-key, bit flips in body or nonce, arrays, nested envelopes, truncated and garbage bodies, malformed key exchanges, re-initialisation in clear and inside an envelope, restarts; a case is one request (kind x method x session epoch); non-trivial when the request is not an honest call under the current key".into(),
 		"C14" => "seeded histories on wallets opened with a keychain mask (restarts give every wallet several successive tokens); at random wallet states every token-taking api::Owner method (14 state-changing / key-deriving / secret-revealing ones and 6 read-only ones) is called with the right token, no token, a random token, the right token with one bit flipped, another wallet's token and the token of a previous open; wallets are closed through close_wallet and called again; at the end the same explicit trace is replayed in an unmasked twin world and step outcomes and a canonical end-state projection (per account value/status/coinbase of outputs, entry types, amounts, confirmations, proofs) are compared; a case is one call (method x token class x open/closed) or one twin comparison; non-trivial when the token is not the right one or the wallet is closed".into(),
 		"C09" => "after a seeded history has put valid traffic of every kind on the wire (S1/S2/S3/I1/I2 slates, with and without proofs and TTLs), bursts of faulted decodes: an entry point (V4 slate JSON, armored slatepack plain / encrypted to the wallet, binary and JSON slatepack, decode_slatepack_message, slatepack and onion address, payment-proof JSON + verify, foreign JSON-RPC receive_tx / finalize_tx / build_coinbase bodies, owner JSON-RPC requests inside an honest encrypted envelope, slatepack file, age ciphertext validly encrypted to the wallet with a malformed plaintext) x a byte-level fault (bit flip(s), truncate, extend, duplicate/drop a segment, splice two messages, swap armor words, whitespace/'>' insertion, header/footer edits, alphabet violation, length-prefix extremes, digit edits, whole-message replacement); a case is one (entry, fault, outcome); non-trivial when the fault changed the bytes; panics are caught at the step boundary, allocation is counted per step, a real-time watchdog turns a hang into an abnormal death with a journal".into(),
+		"C10" => "slates taken from a seeded history between 3 wallets are packed by a sender for recipient sets of size 0 (plain armor) to 4 drawn from all wallets' addresses at derivation indices 0..3; each message is delivered to every recipient, misdelivered to every other (wallet, index) identity in the world and to a keyless reader, its raw bytes are searched for the binary and JSON slate, participant keys and the sender address, its armored text is edited (character changed / dropped / inserted / transposed, 16 or 40 edits) and its encrypted payload is bit-flipped and re-armored with a recomputed checksum; a case is one recipient read / misdelivery / text edit / payload edit; misdeliveries and edits are the non-trivial ones".into(),
 		_ => "seeded histories".into(),
 	}
 }
